@@ -248,6 +248,15 @@ impl FuncShapeDef {
     pub fn ret(&self) -> &Shape {
         &self.ret
     }
+
+    /// Return a new `FuncShapeDef` with a different return type.
+    pub fn with_ret(self, ret: Shape) -> Self {
+        FuncShapeDef {
+            args: self.args,
+            arg_order: self.arg_order,
+            ret: Box::new(ret),
+        }
+    }
 }
 
 #[derive(PartialEq, Debug, Clone)]
